@@ -25,7 +25,7 @@ pub fn strat_a(max: usize) -> impl Strategy<Value = CaseA> {
     gen::plain_strategy(max).prop_flat_map(|plain| {
         let l = plain.len;
         (Just(plain), any::<u64>(), any::<u64>(), rand_strategy(), gen::rsched_for(l), gen::wsched_for(l + 200), gen::rsched_for(l + 200), gen::wsched_for(l))
-    }).prop_map(|(plain, s, r, rand, prs, cws, crs, pws)| CaseA { plain, s, r: if r == s { r ^ 1 } else { r }, rand, prs, cws, crs, pws })
+    }).prop_map(|(plain, s, r, rand, prs, cws, crs, pws)| CaseA { plain, s, r: if r % 16 == 0 { s } else { r }, rand, prs, cws, crs, pws })
 }
 
 pub static SPEC_AGREE: AtomicU64 = AtomicU64::new(0);
@@ -33,7 +33,8 @@ pub static SPEC_DISAGREE: AtomicU64 = AtomicU64::new(0);
 
 pub fn check_a(c: &CaseA) -> CheckResult {
     let p = c.plain.bytes();
-    let s = kx::ident(c.s, "S"); let r = kx::ident(c.r, "R");
+    // one case in sixteen: the sender encrypts to their own key (S and R are the same key pair)
+    let s = kx::ident(c.s, "S"); let r = if c.r == c.s { s.clone() } else { kx::ident(c.r, "R") };
     let (e, pl) = match c.rand { Rand::Fresh => (None, None), Rand::Fixed { e, p } => (Some(gen::key32(e, "E")), Some(gen::key32(p, "P"))), Rand::EOnly { e } => (Some(gen::key32(e, "E")), None), Rand::POnly { p } => (None, Some(gen::key32(p, "P"))) };
     let (res, esh) = kx::key_encrypt(&p, &c.prs, &c.cws, None, &s.sk, &s.pk, &r.pk, e.as_ref(), pl.as_ref());
     ensure!(res.is_ok(), "key_encrypt failed on a healthy source and sink: {:?}", res);
@@ -45,7 +46,7 @@ pub fn check_a(c: &CaseA) -> CheckResult {
         kx::DecRes::Ok(Some(sender)) => {
             ensure!(out == p, "round trip changed the plaintext: {} bytes in, {} bytes out, first difference at {:?}", p.len(), out.len(), p.iter().zip(out.iter()).position(|(a, b)| a != b));
             ensure!(*sender == s.pk, "decryption reported sender {} but the file was made by {}", kspec::hex(sender), kspec::hex(&s.pk));
-            ensure!(*sender != r.pk && ct.len() >= 36 && sender[..] != ct[4..36], "reported sender equals recipient or ephemeral key");
+            ensure!((*sender != r.pk || c.r == c.s) && ct.len() >= 36 && sender[..] != ct[4..36], "reported sender equals recipient or ephemeral key");
         }
         other => return Err(format!("key_decrypt rejected an authentic file: {:?} (plaintext {} bytes, chunk lengths {:?})", other, p.len(), lens)),
     }
@@ -89,6 +90,19 @@ pub fn check_b(c: &CaseB) -> CheckResult {
         ensure!(dsh.src_off.get() == ct.len(), "stream not consumed");
     }
     ok(c.reads.len() >= 2 || n == 0, format!("cs{}/{}", c.cs, if c.reads.len() >= 2 { "multi" } else { "single" }))
+}
+
+/// Streams of very many chunks (chunk size 1 or 2 through the hook): counters beyond 255 and beyond 65535.
+#[derive(Clone, Debug, Serialize, Deserialize)]
+pub struct LongStream { pub cs: u32, pub len: usize, pub seed: u64 }
+pub fn check_long(c: &LongStream) -> CheckResult {
+    let p = gen::bytes_from(c.seed, c.len); let key = gen::key32(c.seed, "long-key");
+    let (res, esh) = kx::enc_chunks(&p, &RSched::full(), &WSched::all(), None, &key, &[], c.cs); ensure!(res.is_ok(), "encrypt_chunks failed: {:?}", res);
+    let ct = esh.sink.take(); let n = (c.len + c.cs as usize - 1) / c.cs as usize;
+    let (dres, dsh) = kx::dec_chunks(&ct, &RSched::full(), &WSched::all(), None, &key, &[], c.cs);
+    ensure!(dres.is_ok(), "a stream of {} chunks does not decrypt: {:?}", n, dres);
+    ensure!(*dsh.sink.borrow() == p, "a stream of {} chunks decrypts to different bytes", n);
+    ok(true, format!("long/{}chunks", if n > 65536 { ">65536" } else if n > 256 { ">256" } else { "<=256" }))
 }
 
 pub fn layer_b_cases(max_cs: u32) -> Vec<CaseB> {
@@ -137,6 +151,7 @@ pub fn run(ctx: &Ctx) {
     let total = cases.len();
     ctx.sse_vec("roundtrip_chunks_sse", &format!("all compositions of lengths 0..=3cs+1 into reads<=cs, cs=1..={}, x3 sink schedules x2 AADs", if ctx.quick() { 4 } else { 6 }), cases, check_b);
     ctx.put("sse_space", serde_json::json!(total));
+    ctx.sse_vec("long_streams", "chunk size 1 and 2: 255, 256, 257, 65535, 65536, 65537, 70000 and 131073 chunks", [255usize, 256, 257, 65535, 65536, 65537, 70000].iter().map(|&n| LongStream { cs: 1, len: n, seed: n as u64 }).chain([LongStream { cs: 2, len: 2 * 131073 - 1, seed: 9 }]).collect(), check_long);
     ctx.shrink_iters.store(20, std::sync::atomic::Ordering::Relaxed);
     let sizes = || proptest::option::of(proptest::collection::vec(any::<u16>(), 0..7));
     ctx.pbt("cli_files_and_pipes", ctx.n(64, 1_500), || (prop_oneof![1 => Just(Plain { len: 0, seed: 0 }), 4 => gen::small_plain(2000), 2 => gen::plain_strategy(300_000), 1 => (1usize..40).prop_map(|k| Plain { len: k * 4096, seed: 0 }), 1 => (0usize..200_000).prop_map(|len| Plain { len, seed: 0 })], sizes(), sizes(), any::<bool>(), any::<bool>(), any::<bool>()).prop_map(|(plain, enc_pipe, dec_pipe, enc_stdout, dec_stdout, enc_fifo)| CliCase { plain, enc_pipe, dec_pipe, enc_stdout, dec_stdout, enc_fifo }), check_cli);
